@@ -74,9 +74,20 @@ class C38(core.Prop):
                        "(rc=%s cpu_exceeded=%s, %d OUTCOME lines printed so far for %d distinct outcomes)"
                        % (res.rc, res.r.cpu_exceeded, res.noutcome_lines, len(res.outcomes)))
                 continue
-            if "failed to connect within" in res.r.err:
+            if res.load_failure:
                 raise core.Inconclusive()       # simgrid-mc's own 5 s wall-clock limit to start its child: load, not a verdict
             befs = "befs:" if (var["algo"] != "DFS" and red != "none") else ""
+            # root-cause classes of the recorded soundness findings (known_findings.json)
+            cls = []
+            if red == "dpor" and var["strategy"] != "none":
+                cls.append("uniform-strategy")
+            if red in ("sdpor", "odpor") and any(op[0] == "cv_wait_for" for a in sc["actors"] for op in a["ops"]):
+                cls.append("timed-condvar")
+            cls = ":" + ("+".join(cls) or "plain") if red != "none" else ""
+            if res.crashed and "A condvar wait is always preceeded by an async_lock right" in res.r.err:
+                oc.bad("%sabort:condvar-wait-without-async-lock:%s" % (befs, red), "simgrid-mc reduction %s (%s) aborts: 'A condvar wait is "
+                       "always preceeded by an async_lock right?'" % (red, extra))
+                continue
             if res.crashed and "Actor -1 does not exist in state" in res.r.err:
                 oc.bad("%sabort:actor--1-does-not-exist:%s" % (befs, red), "simgrid-mc reduction %s (%s) aborts: %s"
                        % (red, extra, [l for l in res.r.err.splitlines() if "does not exist in state" in l][:1]))
@@ -92,11 +103,11 @@ class C38(core.Prop):
                 missing = sorted(ref - res.outcomes)[:3]
                 extra_o = sorted(res.outcomes - ref)[:3]
                 sig = befs + ("outcomes-missed:" if missing else "outcomes-unreachable:")
-                oc.bad(sig + red, "reduction %s (%s): %d distinct outcomes, the reference has %d; missing e.g. %s; not in the reference e.g. %s "
+                oc.bad(sig + red + cls, "reduction %s (%s): %d distinct outcomes, the reference has %d; missing e.g. %s; not in the reference e.g. %s "
                        "(%d traces explored, reference counts %d maximal paths)" % (red, extra, len(res.outcomes), len(ref), missing, extra_o,
                                                                                      res.traces, ex.npaths))
             if res.deadlock != ref_dl:
-                oc.bad(befs + ("deadlock-missed:" if ref_dl else "deadlock-spurious:") + red,
+                oc.bad(befs + ("deadlock-missed:" if ref_dl else "deadlock-spurious:") + red + cls,
                        "reduction %s (%s): deadlock reported=%s, reference reachable deadlock=%s" % (red, extra, res.deadlock, ref_dl))
             if res.assertion != ex.assert_fail:
                 oc.bad("assertion-verdict:" + red, "reduction %s: assertion failure reported=%s, reference=%s" % (red, res.assertion, ex.assert_fail))
